@@ -6,7 +6,7 @@
    the image is this directory's win_eqb (Proofs8's parametricity of the range-map builder does the rest). *)
 From Coq Require Import Lia Bool Sorting.Sorted.
 From RM Require Import Base.Word C06.Model C06.Proofs C07.Model C07.Proofs C07.Proofs2 C07.Proofs8 C07.Proofs16.
-From RM Require C08.Model C08.Proofs C08.WinModel C08.WinProofs.
+From RM Require C08.Model C08.Proofs C08.WinModel C08.WinProofs C08.Tie.
 Import ListNotations.
 Open Scope Z_scope.
 
@@ -298,4 +298,17 @@ Proof.
       right. left. exists i0, b. split; [exact Hin|]. split; [exact Hc|]. split; [exact Et|].
       rewrite (R2 i b eq_refl eq_refl (eq_sym Ht)). rewrite Hev. reflexivity.
     + right. right. apply R3; reflexivity.
+Qed.
+
+(* ---- the tie of the table to the SOURCE: C08's translator (translate/c08_tables.py) regenerates insert_win_stack_info
+   (the comparison, the subtraction, the `as u32`), the parser-local into_rangemap_safe and StackInfoWin::memory_range
+   from parser.rs / types.rs on every run (Gen/C08Tables.v, C08/Tie.v g_win_table).  This directory's table of full
+   StackInfoWin records, seen through the tag map, IS that generated table, in either build profile. ---- *)
+Theorem table_is_source_table : forall p l t, Forall win_wf l -> win_table l = Ret t ->
+  C08.Tie.g_win_table p (map (g l) l) = Ret (mapv (g l) t) /\
+  forall x, C08.Model.rm_get (mapv (g l) t) x = option_map (g l) (C08.Model.rm_get t x).
+Proof.
+  intros p l t Hwf Ht. split.
+  - rewrite C08.Tie.g_win_table_eq. apply win_table_map; assumption.
+  - intro x. apply rm_get_map.
 Qed.
